@@ -21,6 +21,83 @@ set_option linter.unusedSectionVars false
 namespace Dos.Props.C03
 open Dos Dos.Share Dos.Tbls
 
+/-- the statements C03 is about, regenerated from /repo on every run (see `C02.c02_code_shape`):
+index prefix, `tbls.Verify`, `bls.Verify`, the counting loop of `tbls.Recover`, `PubPoly.Eval`. -/
+theorem c03_code_shape :
+    Gen.TblsShape.sigShareIndex = [
+      "0| func (s SigShare) Index() (int, error)",
+      "1| var index uint16",
+      "1| buf := bytes.NewReader(s)",
+      "1| err := binary.Read(buf, binary.BigEndian, &index)",
+      "1| if err != nil",
+      "2| return -1, err",
+      "1| return int(index), nil"
+    ] ∧
+    Gen.TblsShape.sigShareValue = [
+      "0| func (s *SigShare) Value() []byte",
+      "1| return []byte(*s)[2:]"
+    ] ∧
+    Gen.TblsShape.tblsVerify = [
+      "0| func Verify(suite suites.Suite, public *share.PubPoly, msg, sig []byte) error",
+      "1| s := SigShare(sig)",
+      "1| i, err := s.Index()",
+      "1| if err != nil",
+      "2| return err",
+      "1| return bls.Verify(suite, public.Eval(i).V, msg, s.Value())"
+    ] ∧
+    Gen.TblsShape.blsVerify = [
+      "0| func Verify(suite suites.Suite, X kyber.Point, msg, sig []byte) error",
+      "1| HM := hashToPoint(suite, msg)",
+      "1| s := suite.G1().Point()",
+      "1| if err := s.UnmarshalBinary(sig); err != nil",
+      "2| return err",
+      "1| s.Neg(s)",
+      "1| if !suite.PairingCheck([]kyber.Point{s, HM}, []kyber.Point{suite.G2().Point().Base(), X})",
+      "2| return errors.New(\"bls: invalid signature\")",
+      "1| return nil"
+    ] ∧
+    Gen.TblsShape.tblsRecover = [
+      "0| func Recover(suite suites.Suite, public *share.PubPoly, msg []byte, sigs [][]byte, t, n int) ([]byte, error)",
+      "1| if t < public.Threshold()",
+      "2| return nil, errors.New(\"tbls: threshold smaller than the threshold of the public polynomial\")",
+      "1| pubShares := make([]*share.PubShare, 0)",
+      "1| sigs = sliceUniqMap(sigs)",
+      "1| seen := make(map[int]struct{})",
+      "1| for _, sig := range sigs",
+      "2| s := SigShare(sig)",
+      "2| i, err := s.Index()",
+      "2| if err != nil",
+      "3| continue",
+      "2| if _, dup := seen[i]; dup || i >= n",
+      "3| continue",
+      "2| if err = bls.Verify(suite, public.Eval(i).V, msg, s.Value()); err != nil",
+      "3| continue",
+      "2| point := suite.G1().Point()",
+      "2| if err := point.UnmarshalBinary(s.Value()); err != nil",
+      "3| return nil, err",
+      "2| seen[i] = struct{}{}",
+      "2| pubShares = append(pubShares, &share.PubShare{I: i, V: point})",
+      "2| if len(pubShares) >= t",
+      "3| break",
+      "1| commit, err := share.RecoverCommit(suite.G1(), pubShares, t, n)",
+      "1| if err != nil",
+      "2| return nil, err",
+      "1| sig, err := commit.MarshalBinary()",
+      "1| if err != nil",
+      "2| return nil, err",
+      "1| return sig, nil"
+    ] ∧
+    Gen.TblsShape.pubEval = [
+      "0| func (p *PubPoly) Eval(i int) *PubShare",
+      "1| xi := p.g.Scalar().SetInt64(1 + int64(i))",
+      "1| v := p.g.Point().Null()",
+      "1| for j := p.Threshold() - 1; j >= 0; j--",
+      "2| v.Mul(xi, v)",
+      "2| v.Add(v, p.commits[j])",
+      "1| return &PubShare{i, v}"
+    ] :=
+  ⟨rfl, rfl, rfl, rfl, rfl, rfl⟩
+
 /-! ### A. the pairing equation -/
 
 section PairingPart
